@@ -173,7 +173,7 @@ func (f *Flow) probeTask(s *Sim) {
 }
 
 func (f *Flow) pingInFlight() bool {
-	for _, r := range f.Reqs {
+	for _, r := range f.ActiveReqs {
 		if r.Kind == rkPing && r.Invoke != 0 && r.Ret == 0 {
 			return true
 		}
